@@ -3,11 +3,14 @@ from vlib.gen import *
 def run(tier):
     c = GenCheck("C13", tier)
     q = tier == "quick"
-    libs = [LIB, os.path.join(VERIF, "harness", "gen", "zz_verif_c13.go")]
+    hd = os.path.join(VERIF, "harness", "gen")
+    libs = [LIB, os.path.join(hd, "zz_verif_c13.go"), os.path.join(hd, "zz_verif_c11_lib.go"), os.path.join(hd, "zz_verif_c13re.go")]
     schema = os.path.join(VERIF, "schemas", "p", "p1_evolution.tl2")
-    params = {"N": 8} if q else {"N": 13}
-    c.run_schema("p1", [schema], "tl2only", ["C13"], "^VerifC13", params=params, libs=libs, only=["True"], wall="60s" if q else "900s", max_models=8 if q else 30, max_paths=200000)
+    params = {"N": 8, "D": 1, "L": 1, "S": 1, "B": 2} if q else {"N": 13, "D": 2, "L": 2, "S": 2, "B": 4}
+    c.run_schema("p1", [schema], "tl2only", ["C13"], "^VerifC13", params=params, libs=libs, wall="60s" if q else "900s", max_models=8 if q else 30, max_paths=200000)
     c.assumptions += ["values range over everything the generated readers decode from <= N arbitrary bytes; top-level objects up to 253 bytes",
                       "schema pair = one TL2 file with old.* and new.* versions of the same types (new = old + appended fields / appended union variant)",
-                      "re-encodings are applied to the top-level object: huge-form size, explicit zero presence byte for the empty object, value-preserving zero padding after the last field, size beyond input"]
-    return c.finish(bounds=params, outside=["re-encodings of nested objects", "schema pairs other than schemas/p/p1_evolution.tl2", "medium-form sizes (they cannot encode small values)"])
+                      "top-level re-encodings (VerifC13Reencode): huge-form size, explicit zero presence byte for the empty object, value-preserving zero padding after the last field, size beyond input",
+                      "nested re-encodings (VerifC13Nested_*): a schema-directed re-encoder (harness/gen/zz_verif_c13re.go, hand-written wire shapes of old.deep, old.box, new.box, old.opt, old.color) rewrites the minimal encoding of every bounded value with one non-minimal choice at every site of the nesting: any size-like integer (object size, string length, element count, union constructor number) in huge form, all of them in huge form, an empty nested object as an explicit zero presence byte, unknown trailing bytes (with or without their presence bit) inside a nested object; enclosing sizes recomputed",
+                      "values of the nested harnesses: hgen arbitrary-value constructors under D/L/S/B (depth, slice length, string length, total length budget)"]
+    return c.finish(bounds=params, outside=["two or more independent non-minimal choices in one encoding (other than all-sizes-huge)", "types without a hand-written wire shape", "schema pairs other than schemas/p/p1_evolution.tl2", "medium-form sizes (they cannot encode small values)"])
